@@ -2,7 +2,7 @@
 From ZV.Common Require Import Base Run.
 From ZV.C03 Require Import Model ProofsMem ProofsMixed ProofsZip ProofsSimple.
 From ZV.C03 Require Import ProofsSimpleGet ModelStore ProofsStore ModelZero ProofsZero ModelPlain ProofsPlainFs ProofsPlain.
-From ZV.C03 Require Import ModelWrap ProofsWrap ModelCached ProofsCached ModelDictZip ProofsDictZip.
+From ZV.C03 Require Import ModelWrap ProofsWrap ModelCached ProofsCached ModelDictZip ProofsDictZip ModelCases ProofsStack.
 Open Scope N_scope.
 
 (* MemoryBlobStore: for EVERY history of put/put_batch/remove/get+contains+size/len issuing fewer than 2^32-1 ids,
@@ -466,3 +466,23 @@ Theorem plain_id_wraparound_refuted :
   plain_open [(render 4294967295, [])] = None.
 Proof. exact (conj plain_wrap_overwrites plain_open_overflow). Qed.
 Print Assumptions plain_id_wraparound_refuted.
+
+(* every stack of stores the harness can describe (`skind`: Memory / Plain / DictZip at the bottom, any nesting of Zstd, Huffman
+   framing, Rans/Dictionary pass-through and CachedBlobStore above it, codecs given as tables): the composed model `kops k`
+   satisfies the simulation, by induction over the nesting *)
+Theorem stack_refines_spec :
+  forall k, no_zero k = true -> refines W32 (kP k) (kops k) (krel k).
+Proof. exact stack_refines_proof. Qed.
+Check stack_refines_spec : forall k, no_zero k = true -> refines W32 (kP k) (kops k) (krel k).
+Print Assumptions stack_refines_spec.
+
+(* hence every history on every such stack, on records every codec of the stack is lossless on, is answered like the
+   property's machine — the statement the evaluated XHist cases are instances of *)
+Theorem stack_history_refines_spec :
+  forall k ops, no_zero k = true -> Forall (kP k) (xrecords ops) -> 1 + xputs ops < W32 ->
+    st_run (kops k) (kinit k) ops = spec_xrun spec_empty ops.
+Proof. exact stack_history_refines_proof. Qed.
+Check stack_history_refines_spec :
+  forall k ops, no_zero k = true -> Forall (kP k) (xrecords ops) -> 1 + xputs ops < W32 ->
+    st_run (kops k) (kinit k) ops = spec_xrun spec_empty ops.
+Print Assumptions stack_history_refines_spec.
